@@ -7,11 +7,13 @@ histories.  Oracle: the exit status computed from the ground truth of the histor
 last attempts passed, which scripts failed) must equal the exit status the implementation's own
 final statistics map to."""
 import itertools, json, os, re
-import vlib
+import vlib, gen_tie
 from props import dispatcher_common as dc
 from props import C10 as c10
 
 PROP = "C01"
+GEN_TARGETS = ["summarize_final", "failed_count", "failed_setup_script_count", "on_test_finished",
+               "on_setup_script_finished", "is_success", "exec_run_exit"]
 # counters read by summarize_final (indices into the 17-vector)
 VERDICT_FIELDS = [0, 1, 2, 3, 5, 6, 7, 11, 13, 15]
 
@@ -274,6 +276,9 @@ def run(tier, seed):
     if binary is None:
         chk.violation("broken-obligation", "harness-build", dict(error=err), no_input=True)
         return chk.finish(gate, "make -C coq Properties/C01.vo", [])
+    # DESIGN 11.7: the verdict / counter functions regenerated from the source text and proved equal to the
+    # model's (reported at the end, unless the stages below find a concrete failing input)
+    gen_tie.gate(chk, GEN_TARGETS, gate)
     r = vlib.rng_for(seed, PROP)
     thorough = tier == "thorough"
     chk.assumptions = []
